@@ -85,10 +85,13 @@ def _frame_history(rng):
     row_kind = rng.choice(['auto', 'str', 'int', 'IndexDate'])
     rows = L.labels_for(row_kind, nr, rng)
     nr = len(rows)
-    col_kind = rng.choice(['str', 'str', 'int', 'auto', 'mixed'])
+    col_kind = rng.choice(['str', 'str', 'int', 'auto', 'mixed', 'hier2'])
     n0 = rng.randint(0, 3)
     if col_kind == 'auto':
         cols0 = list(range(n0))
+    elif col_kind == 'hier2':
+        n0 = max(1, n0)
+        cols0 = L.tree_labels(2, n0, rng)
     else:
         cols0 = L.labels_for(col_kind, n0, rng)
     dts0 = [rng.choice(_DTYPES) for _ in cols0]
@@ -100,7 +103,10 @@ def _frame_history(rng):
     for _ in range(rng.randint(2, 14)):
         r = rng.random()
         if r < 0.5:
-            kind = rng.choice(_GROW)
+            kind = rng.choice(_GROW + (['setitem_hier_nonlast_branch', 'setitem_hier_wrong_depth'] * 3 if col_kind == 'hier2' else []))
+            if col_kind == 'hier2' and kind in ('extend_frame', 'extend_frame_dup', 'extend_frame_partial_dup', 'extend_frame_unaligned', 'extend_frame_empty',
+                                                'extend_series', 'extend_series_dup'):
+                kind = rng.choice(['setitem_array', 'setitem_series', 'extend_items', 'setitem_dup', 'setitem_hier_nonlast_branch'])
             dt = rng.choice(_DTYPES)
             if col_kind == 'auto':
                 # sequential labels keep the auto-integer columns; any other label promotes them to a mapped index
@@ -110,6 +116,8 @@ def _frame_history(rng):
                     base = max(nxt_auto, 10 ** 6) + 10
                     labs = [rng.choice([base, f'x{base}', -base]), base + 1, base + 2]
                     nxt_auto = base + 3
+            elif col_kind == 'hier2':
+                labs = ('hier_seq', len(steps), rng.random() < 0.6)
             else:
                 labs = [next(fresh), next(fresh), next(fresh)]
             steps.append(('grow', kind, labs, dt, [_col(dt, nr, rng) for _ in range(3)], rng.randrange(1 << 30)))
@@ -179,6 +187,10 @@ def _build_start(start):
     idx = L.build_index(start['row_kind'], rows)
     if start['col_kind'] == 'auto':
         columns = None
+    elif start['col_kind'] == 'hier2':
+        import static_frame as sf_
+        f = sf_.FrameGO.from_items([(i, V.to_array(v, dt)) for i, (dt, v) in enumerate(zip(dts, cells))], index=idx)
+        return sf_.FrameGO(f.relabel(columns=sf_.IndexHierarchy.from_labels(cols)))
     elif start['col_kind'] == 'mixed':
         columns = L.build_index('mixed', cols)
     else:
@@ -255,6 +267,21 @@ def _do_grow(ctx, f, model, step, klass):
     _, kind, labs, dt, cols, seed = step
     if labs == ('seq',):
         labs = [len(model.cols) + j for j in range(3)]
+    elif labs and labs[0] == 'hier_seq':
+        # continue the tree: new inner labels under the last outer label, or a new outer label
+        _, tag, under_last = labs
+        outer = model.cols[-1][0] if under_last else f'O{tag}'
+        labs = [(outer, f'n{tag}_{j}') for j in range(3)]
+        if kind == 'setitem_hier_nonlast_branch':
+            outers = []
+            for c in model.cols:
+                if all(cs(c[0]) != cs(o) for o in outers):
+                    outers.append(c[0])
+            if len(outers) < 2:
+                return 'skip', None
+            labs = [(outers[0], f'n{tag}_x')] * 3
+        elif kind == 'setitem_hier_wrong_depth':
+            labs = [random.Random(seed).choice([('a',), 'zzz', ('a', 'b', 'c')])] * 3
     rng = random.Random(seed)
     nr = len(model.rows)
     arr = V.to_array(cols[0], dt)
@@ -304,6 +331,9 @@ def _do_grow(ctx, f, model, step, klass):
         elif kind == 'setitem_wrong_len':
             expect_reject = True
             f[labs[0]] = np.arange(nr + 1 + rng.randint(0, 2))
+        elif kind in ('setitem_hier_nonlast_branch', 'setitem_hier_wrong_depth'):
+            expect_reject = True
+            f[labs[0]] = arr
         elif kind == 'setitem_2d':
             expect_reject = True
             f[labs[0]] = np.arange(nr * 2).reshape(nr, 2)
@@ -539,7 +569,7 @@ def _check_frame_history(case, ctx):
         elif step[0] == 'derive':
             for name, obj in _derive(ctx, f, model, step[1], step[2]):
                 ctx.tally('derivation', name)
-                live.append({'name': name, 'obj': obj, 'snap': _snap_any(obj), 'at': si})
+                live.append({'name': name, 'obj': obj, 'snap': _snap_any(obj), 'at': si, 'cols_at': len(model.cols)})
         else:
             what = step[1]
             try:
@@ -563,6 +593,8 @@ def _check_frame_history(case, ctx):
                 return
         # every live derived container must be what it was
         for d in live:
+            if step[0] == 'grow' and not d.get('grown') and not _new_labels_absent(ctx, d, model, klass, stage):
+                return
             now = _snap_any(d['obj'])
             if now != d['snap']:
                 ctx.violation('growth_visible_through_derived_container',
@@ -574,6 +606,46 @@ def _check_frame_history(case, ctx):
                 return
     ctx.evaluation(repr(case), bool(grown or rejected or derived_then_grown))
     ctx.tally('history_summary', f'grown>0:{grown > 0} rejected>0:{rejected > 0} derived_then_grown>0:{derived_then_grown > 0}')
+
+
+def _new_labels_absent(ctx, d, model, klass, stage):
+    """labels the source gained after `d` was derived must not be members of / resolvable through the derived container."""
+    import static_frame as sf
+    from static_frame.core.index_base import IndexBase
+    obj = d['obj']
+    held_then = d.get('cols_at')
+    if held_then is None:
+        return True
+    new = [c for c in model.cols[held_then:]]
+    if not new:
+        return True
+    targets = []
+    if isinstance(obj, sf.Frame):
+        targets = [('columns', obj.columns), ('index', obj.index)]
+    elif isinstance(obj, sf.Series):
+        targets = [('index', obj.index)]
+    elif isinstance(obj, IndexBase):
+        targets = [('self', obj)]
+    for name, idx in targets:
+        have = {cs(x) for x in canon.index_labels(idx)}
+        for lab in new[-2:]:
+            if cs(lab) in have or (isinstance(lab, tuple) and idx.depth != len(lab)) or (not isinstance(lab, tuple) and idx.depth != 1):
+                continue
+            try:
+                member = lab in idx
+            except Exception:
+                member = False
+            resolved = None
+            try:
+                resolved = idx.loc_to_iloc(lab)
+            except Exception:
+                pass
+            if member or isinstance(resolved, (int, np.integer)) and not (getattr(idx, '_map', 1) is None):
+                ctx.violation('growth_visible_through_derived_container',
+                              detail={'derived': d['name'], 'axis': name, 'new_label': repr(lab), 'member': bool(member), 'resolved': repr(resolved), 'stage': stage},
+                              klass=dict(klass, derived=d['name'], via='membership'))
+                return False
+    return True
 
 
 def _safe_snap(f):
